@@ -90,6 +90,16 @@ static F<ApiA>* fA; static F<ApiW>* fW;
 static void run_case(Ctx& c, uint64_t idx) {
     if (!fA) { fA = new F<ApiA>(); fW = new F<ApiW>(); }
     if (idx < 4) { if (idx & 1) fW->short_forms(c); else fA->short_forms(c); return; }
+    if (idx < 4 + 255 * 7) {       // every character value in every kind of name (inside C18's domain), both character types
+        uint64_t i = idx - 4; unsigned b = 1 + (unsigned)(i % 255); int k = (int)(i / 255); Str ch(1, (char)b); bool ux = k < 3; Str name;
+        switch (k) { case 0: name = "/a" + ch + "c/" + ch; break; case 1: name = ch + "x/y" + ch; break; case 2: name = "d/" + ch; break;
+                     case 3: name = "C:\\" + ch + "\\q" + ch; break; case 4: name = "\\\\srv" + ch + "\\" + ch + "y"; break; case 5: name = "a" + ch + "\\" + ch; break; default: name = "ab\\" + ch + ch; break; }
+        if (!ux && (b == '/' || (k == 4 && b == '\\'))) return;
+        if (!ux && k >= 5 && name.size() >= 2 && name[1] == ':') return;
+        if (ux && k == 1 && b == '/') { /* "/x/y/" is simply an absolute name */ }
+        c.count("gen_charset"); c.distinct(hash_str(name, ux)); c.note(fmt("file charset %s \"%s\"", ux ? "unix" : "windows", esc(name).c_str()));
+        fA->run(c, name, ux); fW->run(c, name, ux); return;
+    }
     bool ux = c.rng.coin();
     Str name = ux ? gen_filename_unix(c.rng) : gen_filename_win(c.rng);
     c.note(fmt("file %s \"%s\"", ux ? "unix" : "windows", esc(name.substr(0, 200)).c_str()));
